@@ -19,7 +19,9 @@ func Sched(t *simkit.Tape, o *simkit.Outcome, full bool) {
 		o.HarnessDoubt("scratch: %v", err)
 		return
 	}
-	defer os.RemoveAll(work)
+	if os.Getenv("VERIF_KEEP") == "" {
+		defer os.RemoveAll(work)
+	}
 	tree := filepath.Join(work, "tree")
 	if err := s.Materialise(tree); err != nil {
 		o.HarnessDoubt("materialise: %v", err)
